@@ -115,6 +115,7 @@ typedef struct {
 // Executes catalogue entry `o` once. All parameters (shape, strides, operand values) derive from `seed` only,
 // never from `prefill` (pattern written to OUT and SCRATCH buffers before the call) or `mis` (byte
 // misalignment selector of every buffer) — so results must not depend on the latter two. Thread-safe.
+extern __thread int op_exec_repeat;  // > 0: op_exec repeats its call that many times on the same buffers; res->rerun_differs when a repetition differs
 void op_exec(const opdef_t* o, const env_t* env, uint64_t seed, int prefill, unsigned mis, unsigned monitors, opres_t* res);
 // runs the named catalogue entries from T threads at once on private data (shared environment) and compares every
 // result with the same call executed alone; returns the number of differing calls (message of the first in msg)
@@ -125,6 +126,30 @@ int pristine_query(int op, uint64_t N, int native, uint64_t seed, int prefill, u
 void pristine_stop(void);
 void ops_concurrent_case(const char* key, const char* const* names, int nnames, uint64_t N, int cfg, int T, unsigned rep, const char* counter);
 uint64_t ops_concurrent_check(const char* const* names, int nnames, const env_t* env, int T, int iters, uint64_t seed, char* msg, size_t msglen, uint64_t* calls);
+// long single-thread history (A, B x255, A, B x65535, A) of one entry: returns 1 on a violation (msg), 0 when clean, -1 when the entry skips these dimensions
+int ops_history_check(const opdef_t* o, const env_t* big, const env_t* small, uint64_t seedA, uint64_t seedB, char* msg, size_t msglen, uint64_t* calls);
+void ops_history_case(const char* key, const char* opname, uint64_t Nbig, uint64_t Nsmall, int cfg, unsigned rep, const char* counter);
+// jobs with constant arguments: alone first (ephemeral: in a thread that exits), then all at once; tight: repetitions per op_exec in the concurrent phase
+uint64_t ops_steady_check(const char* const* names, int nj, const env_t* env, int solo_iters, int conc_iters, int tight, uint64_t seed, int ephemeral, char* msg, size_t msglen, uint64_t* calls);
+void ops_steady_case(const char* key, const char* const* names, int nj, uint64_t N, int cfg, int solo_iters, int conc_iters, int tight, int ephemeral, unsigned rep, const char* counter);
+// random create / use / destroy of modules and tables (kindmask: bits LKM_*); mass > 0: that many objects of one kind alive at once
+#define LKM_MOD_FFT64 1u
+#define LKM_MOD_NTT120 2u
+#define LKM_REIM_FFT 4u
+#define LKM_REIM_IFFT 8u
+#define LKM_CPLX_FFT 16u
+#define LKM_CPLX_IFFT 32u
+#define LKM_NTT 64u
+#define LKM_INTT 128u
+#define LKM_BBC 256u
+#define LKM_BAA 512u
+#define LKM_BBB 1024u
+#define LKM_REIM_MUL 2048u
+#define LKM_ALL 4095u
+void ops_lifecycle_case(const char* key, unsigned kindmask, int cfg, int steps, int mass, unsigned rep, const char* counter);
+// in-place rotation (which 0 / 2 big) or automorphism (1 / 3 big) on ring N with exponent pA, exactly 256 and 65536 in-place calls after the previous
+// such call, only calls (N2, pB) in between; compared with the out-of-place call and the definition
+void ops_ring_history_case(int which, uint64_t N, int64_t pA, uint64_t N2, int64_t pB, int native, unsigned rep, const char* counter);
 // counts of memcheck definedness failures observed by MON_VALGRIND (process-wide)
 extern uint64_t ops_valgrind_undefined_outputs;
 
